@@ -37,7 +37,11 @@ impl egg::CostFunction<Expr> for CostFn<'_> {
             Proj([exprs, c]) | Window([exprs, c]) => costs(exprs) * rows(c) + costs(c),
             Agg([exprs, c]) => costs(exprs) * rows(c) + build() + costs(c),
             HashAgg([keys, aggs, c]) => {
-                (hash(rows(id)) + costs(keys) + costs(aggs)) * rows(c) + build() + costs(c)
+                // Never as cheap as the sort aggregation of the same class: `sortagg` only exists
+                // where the input is ordered by the keys, the class is then known as ordered and an
+                // ORDER BY above it is removed, so the ordered implementation must be the one
+                // extracted (with an estimate of 0 input rows both used to cost the same).
+                (hash(rows(id)) + costs(keys) + costs(aggs)) * rows(c) + build() + costs(c) + 0.01
             }
             SortAgg([keys, aggs, c]) => (costs(keys) + costs(aggs)) * rows(c) + build() + costs(c),
             Limit([_, _, c]) => build() + costs(c),
